@@ -59,9 +59,41 @@ for d in sorted(glob.glob(os.path.join(V, "seeded", "C*-*"))):
     rows.append("| %s | %s | %s | %s | %s |" % (sid, meta["property"], meta["change"].replace("|", "\\|"),
                                                meta["needs_to_manifest"].replace("|", "\\|"),
                                                ", ".join("%s (%d)" % (c, r[c][1]) for c in caught) or "-"))
+# ---- behaviour-preserving changes: every check must stay quiet
+bres = {}
+for lg in logs:
+    if not os.path.exists(lg):
+        continue
+    cur = None
+    for line in open(lg):
+        m = re.match(r"## benign (B\d-\d)", line)
+        if m:
+            cur = m.group(1)
+            continue
+        if line.startswith("## seeded"):
+            cur = None
+            continue
+        m = re.match(r"out/benign\d\.diff (C\d+) exit=(\d+) violations=(\d+)", line)
+        if m and cur:
+            bres.setdefault(cur, {})[m.group(1)] = int(m.group(2))
+brows = []
+for d in sorted(glob.glob(os.path.join(V, "seeded", "benign", "B*"))):
+    bid = os.path.basename(d)
+    mp = os.path.join(d, "meta.json")
+    meta = json.load(open(mp))
+    r = bres.get(bid, {})
+    meta["quick_checks_exit_0"] = sorted(c for c, rc in r.items() if rc == 0)
+    meta["quick_checks_alarmed"] = sorted(c for c, rc in r.items() if rc != 0)
+    json.dump(meta, open(mp, "w"), indent=1)
+    brows.append("| %s | %s | %s | %s | %s |" % (bid, meta["kind"], meta["change"].replace("|", "\\|"),
+                                             ", ".join(meta["quick_checks_exit_0"]) or "-",
+                                             ", ".join(meta["quick_checks_alarmed"]) or "none"))
 readme = os.path.join(V, "seeded", "README.md")
 text = open(readme).read()
 head = text[:text.index("| id | property |")]
 table = "| id | property | change | needs to manifest | caught by quick checks (violations reported, capped at 20) |\n|---|---|---|---|---|\n" + "\n".join(rows) + "\n"
-open(readme, "w").write(head + table)
+btable = ("\n## Behaviour-preserving changes (`seeded/benign/<id>/`)\n\nKinds: a refactoring, b performance, c different but "
+          "equally valid choice (tie-breaking, schedule), d neutral addition.\n\n"
+          "| id | kind | change | quick checks that exit 0 | alarms |\n|---|---|---|---|---|\n" + "\n".join(brows) + "\n")
+open(readme, "w").write(head + table + btable)
 print(table)
